@@ -70,6 +70,6 @@ META = dict(
     note="Trusted: Lean kernel + propext/Classical.choice/Quot.sound; hand-written models + correspondence "
          "generators; exact reals stand in for float64.",
     technique="Lean 4 proof (named intermediates + one ring identity + linarith per step; induction over scan) + "
-              "differential correspondence model vs real code + budget oracle on the implementation",
+              "differential correspondence model vs real code + budget oracle on the implementation + model regenerated from the Go source on every run by a translator (gen_eq_* theorems tie it to the hand-written model) + inequality clauses re-proved for every monotone rounding (RNum)",
 )
 READY = True
